@@ -1,9 +1,34 @@
-"""Constructor / validator vectors (C13) and input snapshots around object construction (C15).  (filled in below)"""
+"""Constructor / validator vectors (C13) and input snapshots around object construction (C15)."""
+
+from . import core
+from .core import Model
+from . import replay_ctor
+
+
+def sig_ctor(vec, probs):
+    c = vec["cfg"]
+    return {"engine": "ctor", "op": c["op"], "cls": c["cls"], "via": c["via"], "expected": vec["res"]}
 
 
 def run_ctor(out, prop, tier):
-    return []
+    m = Model("MC_Ctor.tla", {"Emit": True, "MaxDims": 3 if tier == "quick" else 4},
+              invariants=["Prop_C13", "EmitInv"], workers=2, label="MC_Ctor")
+    vectors = []
+    for mm, res in core.run_models([m], seed=out.seed):
+        out.add_tlc(mm, res)
+        vectors += res.vectors
+    bad = core.replay_parallel(replay_ctor.run_vector, vectors)
+    out.replayed += len(vectors)
+    out.samples += [core.sample_of(v) for v in vectors[:: max(1, len(vectors) // 2)][:2]]
+    out.judge(core.for_property(bad, prop), "ctor", sig_ctor)
+    kinds = out.extra.setdefault("ctor_vectors", {})
+    for v in vectors:
+        k = f"{v['cfg']['op']}/{v['res']}"
+        kinds[k] = kinds.get(k, 0) + 1
+    return vectors
 
 
 def run_inputs(out, prop, tier):
+    """C15 for object construction (stocks, lifetime models, systems, exports): the stock / system / export
+    engines snapshot every input around every call and tag changes {C15}; they are run from check_C15."""
     return []
